@@ -16,7 +16,7 @@ PATHS = ("in_tz", "in_timezone", "astimezone", "convert")
 KINDS = ("pendulum", "zoneinfo", "pytz", "dateutil", "timezone")
 RULE = ("sources: instants at {-gap-1s,-1s,-1us,0,+1us,+1s,+gap} around sampled transitions of every zone, rendered in that zone "
         "(canonical fold and pendulum's default fold=1), plus random instants in years 2..9998 for UTC/fixed offsets; targets: random zones, "
-        "fixed offsets -23:59..+23:59, UTC, the same zone; paths " + ",".join(PATHS) + "; A->B->C vs A->C; from_timestamp/int_timestamp; "
+        "fixed offsets -23:59..+23:59, UTC, the same zone; paths " + ",".join(PATHS) + "; the requested zone also given as a name, zoneinfo/pytz object, number of hours (int or exact float), datetime.timezone, timezone(seconds), 'utc'/'UTC'; A->B->C vs A->C; from_timestamp/int_timestamp; "
         "instance() of aware native datetimes with tzinfo kinds " + ",".join(KINDS) +
         ". non-trivial = source or target wall time lies within one jump of a transition")
 EXHAUSTIVE = {"quick": False, "thorough": False}
@@ -52,6 +52,50 @@ def _target(rng):
     return UTCI
 
 
+class _Skip(Exception):
+    pass
+
+
+FORMS_NAMED = ("name", "zoneinfo", "pytz")
+FORMS_FIXED = ("hours", "timezone", "seconds")
+
+
+def _target_form(rng):
+    """(target ref, form): the requested zone given in one of the argument forms `_safe_timezone` accepts"""
+    r = rng.random()
+    if r < 0.45:
+        return str(rng.randrange(len(D.ZN))), rng.choice(FORMS_NAMED)
+    if r < 0.9:
+        k = rng.choice((rng.randint(-191, 191), rng.randint(-23, 23) * 8, -rng.randint(1, 95) * 2 + 1))
+        return "f%d" % (k * 450 * US), rng.choice(FORMS_FIXED)
+    return UTCI, rng.choice(("name", "zoneinfo", "utc-lower", "utc-upper"))
+
+
+def _spec(b, form):
+    """the object handed to in_tz/in_timezone/from_timestamp for target ref b in the given form"""
+    if form == "name":
+        return D.zname(b)
+    if form == "zoneinfo":
+        return _P["zi"].ZoneInfo(D.zname(b))
+    if form == "pytz":
+        try:
+            return _P["pytz"].timezone(D.zname(b))
+        except _P["pytz"].UnknownTimeZoneError:
+            raise _Skip from None            # pytz ships an older zone list; not pendulum's concern
+    if form == "utc-lower":
+        return "utc"
+    if form == "utc-upper":
+        return "UTC"
+    sec = int(b[1:]) // US
+    if form == "hours":                       # a number of hours: int when whole, else an exactly representable float
+        return sec // 3600 if sec % 3600 == 0 else sec / 3600
+    if form == "timezone":
+        return dt.timezone(dt.timedelta(seconds=sec))
+    if form == "seconds":                     # pendulum.timezone(int) = fixed_timezone(seconds)
+        return _P["p"].timezone(sec)
+    raise ValueError(form)
+
+
 def gen_ops(rng, tier):
     per_zone = {"quick": 3, "thorough": 40, "widen": 12}[tier]
     ntar = {"quick": 3, "thorough": 8, "widen": 4}[tier]
@@ -72,6 +116,8 @@ def gen_ops(rng, tier):
                     for _ in range(ntar):
                         yield ("intz", rng.choice(PATHS), str(zi), w, f, _target(rng))
                     yield ("intz", rng.choice(PATHS), str(zi), w, f, str(zi))
+                    tb, form = _target_form(rng)
+                    yield ("intz", rng.choice(("in_tz", "in_timezone")), str(zi), w, f, tb, form)
                     yield ("intz2", str(zi), w, f, _target(rng), _target(rng))
                     yield ("intts", str(zi), w, f)
                     for k in KINDS:
@@ -79,6 +125,8 @@ def gen_ops(rng, tier):
                 # the same instant reached from elsewhere
                 yield ("intz", rng.choice(PATHS), UTCI, u, rng.randint(0, 1), str(zi))
                 yield ("fromts", u // US, rng.choice((0, 0, 500000, 250000)), str(zi))
+                tb, form = _target_form(rng)
+                yield ("fromts", u // US, 0, tb, form)
     n = {"quick": 4000, "thorough": 200000, "widen": 40000}[tier]
     lo, hi = Z.to_us(dt.datetime(2, 1, 2)), Z.to_us(dt.datetime(9998, 12, 30))
     for _ in range(n):
@@ -93,12 +141,22 @@ def gen_ops(rng, tier):
         if src[0] == "f":
             yield ("instance", "timezone", src, w, 0)
         yield ("fromts", u // US, 0, tgt)
+        tb, form = _target_form(rng)
+        if tb[0] == "f" or tb == UTCI or Z.to_us(dt.datetime(1800, 1, 1)) < u < hi_ok:
+            yield ("intz", rng.choice(("in_tz", "in_timezone")), src, w, rng.randint(0, 1), tb, form)
+            yield ("fromts", u // US, 0, tb, form)
+
+
+def _resolved(b, form):
+    """`_safe_timezone` maps a tzinfo that calls itself "UTC" (datetime.timezone.utc) to the UTC zone, not to a FixedTimezone"""
+    return UTCI if (form == "timezone" and b == "f0") else b
 
 
 def line(op, backend):
     k = op[0]
     if k == "intz":
-        _, path, a, w, f, b = op
+        _, path, a, w, f, b = op[:6]
+        b = _resolved(b, op[6] if len(op) == 7 else None)
         return "intz %s %d %d %s %d" % (a, w, f, b, int(a == b))
     if k == "intz2":
         _, a, w, f, b, c = op
@@ -108,7 +166,8 @@ def line(op, backend):
     if k == "intts":
         return "intts %s %d %d" % op[1:]
     if k == "fromts":
-        _, sec, us, z = op
+        _, sec, us, z = op[:4]
+        z = _resolved(z, op[4] if len(op) == 5 else None)
         return "intz %s %d 1 %s %d" % (UTCI, sec * US + us, z, int(z == UTCI))
     if k == "instance":
         _, kind, z, w, f = op
@@ -163,13 +222,22 @@ def _check_zone(r, b):
 
 
 def impl(op, backend):
+    try:
+        return _impl(op, backend)
+    except _Skip:
+        return "skip"
+
+
+def _impl(op, backend):
     p = _P["p"]
     k = op[0]
     if k == "intz":
-        _, path, a, w, f, b = op
+        _, path, a, w, f, b = op[:6]
         x = D.mk(a, w, f)
         tz = D.tzobj(b)
-        if path == "in_tz":
+        if len(op) == 7:
+            r = getattr(x, path)(_spec(b, op[6]))
+        elif path == "in_tz":
             r = x.in_tz(D.zname(b) if b[0] != "f" else tz)
         elif path == "in_timezone":
             r = x.in_timezone(tz)
@@ -192,10 +260,10 @@ def impl(op, backend):
             return "err TimestampMismatch"
         return "ok %d" % ts
     if k == "fromts":
-        _, sec, us, z = op
+        _, sec, us, z = op[:4]
         tz = D.tzobj(z)
         t = sec if us == 0 else sec + us / 1e6
-        r = p.from_timestamp(t, tz=(D.zname(z) if z[0] != "f" else tz))
+        r = p.from_timestamp(t, tz=(_spec(z, op[4]) if len(op) == 5 else D.zname(z) if z[0] != "f" else tz))
         if r.int_timestamp != sec:
             return "err IntTimestampNotInverse %d" % r.int_timestamp
         if us and r.timestamp() != t:
@@ -253,7 +321,7 @@ def oracle(op, out, backend):
         return None
     if k in ("intz", "intz2", "instance", "fromts"):
         if k == "fromts":
-            _, sec, us, b = op
+            _, sec, us, b = op[:4]
             u = sec * US + us
         else:
             a, w, f = (op[2], op[3], op[4]) if k in ("intz", "instance") else (op[1], op[2], op[3])
@@ -301,9 +369,13 @@ def tag(op, out):
     k = op[0]
     if k == "intz":
         near = _near(op[2], op[3]) or (out.startswith("ok ") and _near(op[5], int(out.split()[1])))
+        if len(op) == 7:
+            return "intz:form=" + op[6] + (":near-transition" if near else ":plain")
         return "intz:" + op[1] + (":near-transition" if near else ":plain")
     if k == "instance":
         return "instance:" + op[1] + (":near-transition" if _near(op[2], op[3]) else ":plain")
+    if k == "fromts" and len(op) == 5:
+        return "fromts:form=" + op[4]
     return k
 
 
